@@ -214,7 +214,16 @@ def run(prog: Program, ctx: Ctx) -> None:  # noqa: PLR0912,PLR0915
     for label, src in extraction.corpus(ctx.tier == "thorough"):
         res = ex.visit(src)
         n10 += 1
-        problems = [res] if isinstance(res, str) else extraction.compare(src, extraction.reference(src), *res)
+        ref = extraction.reference(src)
+        problems = [res] if isinstance(res, str) else extraction.compare(src, ref, *res)
+        if not problems and "m.__all__" in ref and isinstance(ref["m.__all__"]["node"], ast.Assign):
+            # the module's exports are what the surviving `__all__` assignment lists
+            try:
+                want_all = list(ast.literal_eval(ref["m.__all__"]["node"].value))
+            except ValueError:
+                want_all = None
+            if want_all is not None and ex.last_exports != want_all:
+                problems = [f"m: exports are {ex.last_exports}, the `__all__` member that survives (line {ref['m.__all__']['lineno']}) lists {want_all}"]
         if problems:
             cls_key = f"{label.split('|')[0]}|{problems[0].split(': ', 1)[-1][:70]}"
             if cls_key in seen10:
